@@ -22,11 +22,6 @@ def system_inv(s):
                    and not is_none(s._molecules[k].mixture._system_mass) and val(s._molecules[k].mixture._relative_mass) >= 0)))
 ''')
 
-contract("system.System.generable", is_property=True, trusted=True,
-         why_trusted="loop over the molecules' generable flags (Molecule.generable is not under contract yet); only the implication to the stored flag is used",
-         props=["C13", "C15"], params=dict(self=Ref("System")), returns=BOOL,
-         ensures=["implies(result, self._generable)"], modifies=[], allocates=False)
-
 contract("system.System.system_mass", is_property=True, trusted=True,
          why_trusted="reads the first molecule's mixture and compares the others; stated as an uninterpreted function of the system (the value itself is checked by the C12 driver)",
          props=["C13"], params=dict(self=Ref("System")), returns=REAL,
@@ -42,17 +37,18 @@ contract("molecule.Molecule.generate", trusted=True,
                    "ghost.last_cand", "ghost.last_norm", "ghost.draws", "ghost.last_draw", "ghost.last_draw_rng", "ghost.units", "ghost.mass_after",
                    "ghost.open_after", "ghost.bonds", "ghost.bond_a", "ghost.bond_b", "ghost.bond_t"])
 
-for _c in ("Stochastic", "SmilesToken"):
-    contract(f"{'stochastic' if _c == 'Stochastic' else 'token'}.{_c}.generable", is_property=True, trusted=True,
-             why_trusted="loop over descriptor / token flags; used as an opaque boolean by the base-class guard",
-             props=["C15"], params=dict(self=Ref(_c)), returns=BOOL, ensures=[], modifies=[], allocates=False)
-
 contract("core.BigSMILESbase.generate", props=["C13", "C15"],
          params=dict(self=Ref("System|Stochastic|SmilesToken|Molecule"), prefix=NRef("MolGen"), rng=GENERATOR), defaults={"prefix": None, "rng": None},
          returns=None,
          ensures=["implies(isinstance(self, System), self._generable)",
+                  "implies(isinstance(self, Stochastic), stoch_gen_ok(self))",
+                  "implies(isinstance(self, SmilesToken), token_gen_ok(self))",
+                  "implies(isinstance(self, Molecule), mol_gen_ok(self))",
                   "implies(not is_none(prefix), len(prefix.bond_descriptors) == 1)"],
          labels={"implies(isinstance(self, System), self._generable)": "refuses-what-is-not-generable",
+                 "implies(isinstance(self, Stochastic), stoch_gen_ok(self))": "refuses-a-stochastic-object-with-a-negative-weight-or-without-distribution",
+                 "implies(isinstance(self, SmilesToken), token_gen_ok(self))": "refuses-a-token-with-a-negative-weight",
+                 "implies(isinstance(self, Molecule), mol_gen_ok(self))": "refuses-a-molecule-with-a-non-generable-element",
                  "implies(not is_none(prefix), len(prefix.bond_descriptors) == 1)": "refuses-a-prefix-without-exactly-one-open-descriptor"},
          raises_may={"RuntimeError": "True"}, modifies=[], allocates=False)
 
@@ -97,9 +93,6 @@ contract("system.System.generator", is_property=True, props=["C13", "C14"],
 
 
 # ---- single-molecule generation ----------------------------------------------------------------------------------------------
-contract("molecule.Molecule.generable", is_property=True, trusted=True, why_trusted="loop over element flags; only used as an opaque boolean here",
-         props=["C13"], params=dict(self=Ref("Molecule")), returns=BOOL, ensures=[], modifies=[], allocates=False)
-
 _GEN = {
     "self._generable": "refuses-a-system-that-is-not-generable",
     "len(result.bond_descriptors) == 0": "returns-a-fully-generated-molecule",
